@@ -67,24 +67,28 @@ Proof.
   - intros H. right. exact (IH H).
 Qed.
 
-Lemma fold_restore_find l : NoDup (map fst l) -> forall m k,
-  afind k (fold_left restore l m) =
+Lemma fold_restore_find l : forall m k,
+  afind k (fold_right (fun e m => restore m e) m l) =
   match afind k l with
   | Some v => if vid v =? 0 then None else Some v
   | None => afind k m
   end.
 Proof.
-  induction l as [|[k0 v0] l IH]; intros ND m k; cbn [fold_left afind]; [reflexivity|].
-  cbn [map fst] in ND. inversion ND as [|? ? Hn ND']; subst.
-  rewrite (IH ND'). destruct (str_eqb k k0) eqn:E.
-  - apply str_eqb_eq in E. subst k0. rewrite (notin_afind_none _ _ Hn).
-    unfold restore. cbn [fst snd]. destruct (vid v0 =? 0).
+  induction l as [|[k0 v0] l IH]; intros m k; cbn [fold_right afind]; [reflexivity|].
+  unfold restore at 1. cbn [fst snd]. destruct (str_eqb k k0) eqn:E.
+  - apply str_eqb_eq in E. subst k0. destruct (vid v0 =? 0).
     + rewrite afind_aerase, str_eqb_refl. reflexivity.
     + rewrite afind_aset, str_eqb_refl. reflexivity.
-  - destruct (afind k l); [reflexivity|].
-    unfold restore. cbn [fst snd]. destruct (vid v0 =? 0).
-    + rewrite afind_aerase, E. reflexivity.
-    + rewrite afind_aset, E. reflexivity.
+  - destruct (vid v0 =? 0).
+    + rewrite afind_aerase, E. apply IH.
+    + rewrite afind_aset, E. apply IH.
+Qed.
+
+Lemma afind_snoc k l n v : afind k (l ++ [(n, v)]) =
+  match afind k l with Some x => Some x | None => if str_eqb k n then Some v else None end.
+Proof.
+  induction l as [|[k0 v0] l IH]; cbn [app afind]; [destruct (str_eqb k n); reflexivity|].
+  destruct (str_eqb k k0); [reflexivity | exact IH].
 Qed.
 
 Lemma NoDup_app_snoc {A} (l : list A) x : NoDup l -> ~ In x l -> NoDup (l ++ [x]).
@@ -119,9 +123,8 @@ Fixpoint LR (lg : list (list (str * vinfo))) (fs : list frame) (g : frame) : Pro
   match lg, fs with
   | [], [] => True
   | l :: lr, f :: fr =>
-      NoDup (map fst l) /\
-      (forall k, In k (map fst l) <-> ffind k f <> None) /\
-      (forall k v, In (k, v) l -> slookup k fr g = (if vid v =? 0 then None else Some (vid v))) /\
+      (forall k, afind k l <> None <-> ffind k f <> None) /\
+      (forall k v, afind k l = Some v -> slookup k fr g = (if vid v =? 0 then None else Some (vid v))) /\
       LR lr fr g
   | _, _ => False
   end.
@@ -149,31 +152,30 @@ Lemma fpos_nil : fpos [].
 Proof. intros k i H; discriminate. Qed.
 
 Lemma step_R s t o :
-  R s t -> redecl_free_step t o = true ->
+  R s t ->
   R (fst (vm_step s o)) (fst (sp_step t o)) /\ out_ok o (snd (vm_step s o)) (snd (sp_step t o)).
 Proof.
-  intros [Hn Hv Hpf Hpg Hl] Hwf.
+  intros [Hn Hv Hpf Hpg Hl].
   destruct s as [c gl lg nx]; destruct t as [fs g sn]; cbn [next cur glob log sframes sglobal snext] in *.
   subst sn.
   destruct o as [| |n gf|n gf ctx|n gf|].
   - (* Enter *)
     cbn. split; [|reflexivity]. constructor; cbn [next cur glob log sframes sglobal snext]; auto.
     + constructor; [exact fpos_nil | exact Hpf].
-    + cbn [LR]. repeat split; try constructor; cbn; try tauto.
+    + cbn [LR]. repeat split; cbn; try tauto; try discriminate.
   - (* Leave *)
     destruct lg as [|l lr]; destruct fs as [|f fr]; cbn [LR] in Hl; try contradiction.
     + cbn. split; [|reflexivity]. constructor; cbn; auto.
-    + destruct Hl as (ND & Hk & Hs & Hl').
+    + destruct Hl as (Hk & Hs & Hl').
       cbn [vm_step sp_step log sframes fst snd]. split; [|reflexivity].
       inversion Hpf; subst.
       constructor; cbn [next cur glob log sframes sglobal snext]; auto.
-      intros k. unfold vw. rewrite (fold_restore_find l ND).
+      intros k. unfold vw. rewrite (fold_restore_find l).
       destruct (afind k l) as [v|] eqn:E.
-      * apply afind_some_in in E. rewrite (Hs _ _ E). destruct (vid v =? 0); reflexivity.
-      * apply afind_none_notin in E.
-        specialize (Hv k). cbn [slookup] in Hv.
+      * rewrite (Hs _ _ E). destruct (vid v =? 0); reflexivity.
+      * specialize (Hv k). cbn [slookup] in Hv.
         destruct (ffind k f) eqn:Ef.
-        -- exfalso. apply E. apply Hk. congruence.
+        -- exfalso. assert (afind k l <> None) by (apply Hk; congruence). congruence.
         -- exact Hv.
   - (* Add *)
     destruct lg as [|l lr]; destruct fs as [|f fr]; cbn [LR] in Hl; try contradiction.
@@ -184,26 +186,24 @@ Proof.
         destruct (str_eqb k n); [|exact (Hv k)].
         destruct (afind n c); reflexivity.
       * apply fpos_cons; [lia | exact Hpg].
-    + destruct Hl as (ND & Hk & Hs & Hl').
-      cbn [redecl_free_step sframes] in Hwf.
-      destruct (ffind n f) eqn:Ef; [discriminate|].
-      assert (Hnl : ~ In n (map fst l)) by (intros H; apply Hk in H; congruence).
-      assert (Hvn : vw c n = slookup n fr g) by (rewrite (Hv n); cbn [slookup]; rewrite Ef; reflexivity).
+    + destruct Hl as (Hk & Hs & Hl').
       inversion Hpf as [|? ? Hpf1 Hpf2]; subst.
-      assert (Hlog : forall old, vw c n = (if vid old =? 0 then None else Some (vid old)) ->
+      (* the entry appended to the undo log is the first one for n only if the frame does not bind n yet *)
+      assert (Hlog : forall old, (afind n l = None -> vw c n = (if vid old =? 0 then None else Some (vid old))) ->
                  LR ((l ++ [(n, old)]) :: lr) (((n, nx + 1) :: f) :: fr) g).
       { intros old Hold. cbn [LR]. repeat split.
-        - rewrite map_app. cbn [map fst]. apply NoDup_app_snoc; assumption.
-        - rewrite map_app, in_app_iff. cbn [map fst In ffind].
-          destruct (str_eqb k n) eqn:E; [congruence|].
-          intros [H|[H|[]]]; [apply Hk; exact H | subst; rewrite str_eqb_refl in E; discriminate].
-        - rewrite map_app, in_app_iff. cbn [map fst In ffind].
-          destruct (str_eqb k n) eqn:E.
-          + apply str_eqb_eq in E. subst. tauto.
-          + intros H. left. apply Hk. exact H.
-        - intros k v Hin. apply in_app_iff in Hin. destruct Hin as [Hin|[Hin|[]]].
-          + exact (Hs _ _ Hin).
-          + injection Hin as <- <-. rewrite <- Hvn. exact Hold.
+        - rewrite afind_snoc. cbn [ffind]. destruct (str_eqb k n) eqn:E; [congruence|].
+          intros H. apply Hk. destruct (afind k l); congruence.
+        - rewrite afind_snoc. cbn [ffind]. destruct (str_eqb k n) eqn:E.
+          + intros _. destruct (afind k l); congruence.
+          + intros H. apply Hk in H. destruct (afind k l); congruence.
+        - intros k v. rewrite afind_snoc. destruct (afind k l) as [x|] eqn:E.
+          + intros H. injection H as <-. exact (Hs _ _ E).
+          + destruct (str_eqb k n) eqn:E2; [|discriminate].
+            apply str_eqb_eq in E2. subst k. intros H. injection H as <-.
+            rewrite <- (Hold E). specialize (Hv n). cbn [slookup] in Hv.
+            destruct (ffind n f) eqn:Ef; [|exact (eq_sym Hv)].
+            exfalso. assert (afind n l <> None) by (apply Hk; congruence). congruence.
         - exact Hl'. }
       cbn [vm_step sp_step log sframes next snext cur glob sglobal].
       destruct (afind n c) as [old|] eqn:Ec; cbn [fst snd]; (split; [|reflexivity]).
@@ -211,15 +211,15 @@ Proof.
         -- intros k. rewrite vw_aset. cbn [slookup ffind vid].
            destruct (str_eqb k n); [reflexivity | exact (Hv k)].
         -- constructor; [apply fpos_cons; [lia|exact Hpf1] | exact Hpf2].
-        -- apply Hlog. unfold vw. rewrite Ec. cbn [option_map].
+        -- apply Hlog. intros _. unfold vw. rewrite Ec. cbn [option_map].
            assert (vid old <> 0).
-           { apply (slookup_pos n fr g); auto. rewrite <- Hvn. unfold vw. rewrite Ec. reflexivity. }
+           { apply (slookup_pos n (f :: fr) g); auto. rewrite <- (Hv n). unfold vw. rewrite Ec. reflexivity. }
            destruct (vid old =? 0) eqn:E0; [apply N.eqb_eq in E0; contradiction | reflexivity].
       * constructor; cbn [next cur glob log sframes sglobal snext]; auto.
         -- intros k. rewrite vw_aset. cbn [slookup ffind vid].
            destruct (str_eqb k n); [reflexivity | exact (Hv k)].
         -- constructor; [apply fpos_cons; [lia|exact Hpf1] | exact Hpf2].
-        -- apply Hlog. unfold vw. rewrite Ec. reflexivity.
+        -- apply Hlog. intros _. unfold vw. rewrite Ec. reflexivity.
   - (* Use *)
     destruct gf; cbn [vm_step sp_step cur glob log next sframes sglobal snext].
     + (* global map: R does not constrain it *)
@@ -249,43 +249,38 @@ Qed.
 
 (* ------------------------------------------------------------------ runs *)
 Lemma run_R ops : forall s t,
-  R s t -> all_steps redecl_free_step t ops = true ->
+  R s t ->
   R (fst (vm_run s ops)) (fst (sp_run t ops)) /\
   outs_ok out_ok ops (snd (vm_run s ops)) (snd (sp_run t ops)).
 Proof.
-  induction ops as [|o r IH]; intros s t HR Hwf; cbn [vm_run sp_run all_steps] in *.
+  induction ops as [|o r IH]; intros s t HR; cbn [vm_run sp_run] in *.
   - cbn. auto.
-  - apply andb_true_iff in Hwf. destruct Hwf as [H1 H2].
-    destruct (step_R s t o HR H1) as [HR' Ho].
+  - destruct (step_R s t o HR) as [HR' Ho].
     destruct (vm_step s o) as [s1 a] eqn:Ev. destruct (sp_step t o) as [t1 b] eqn:Es.
     cbn [fst snd] in *.
-    specialize (IH s1 t1 HR' H2).
+    specialize (IH s1 t1 HR').
     destruct (vm_run s1 r) as [s2 l]. destruct (sp_run t1 r) as [t2 l'].
     cbn [fst snd outs_ok] in *. tauto.
 Qed.
 
-Theorem vm_refines_scopes ops :
-  redecl_free ops = true -> outs_ok out_ok ops (run_vm ops) (run_sp ops).
-Proof. intros H. exact (proj2 (run_R ops vm0 sp0 R0 H)). Qed.
+Theorem vm_refines_scopes ops : outs_ok out_ok ops (run_vm ops) (run_sp ops).
+Proof. exact (proj2 (run_R ops vm0 sp0 R0)). Qed.
 
-(* the undo log is order-sensitive exactly when a name is declared twice inside one frame *)
+(* a name declared twice inside one frame: the undo log (replayed in reverse since f35544d) restores the outer binding *)
 Definition redecl_witness : list op := [Enter; Add [120] false; Add [120] false; Leave; Use [120] false false].
 
-Lemma vm_same_scope_redecl_refuted :
-  exists ops, redecl_free ops = false /\ ~ outs_ok out_ok ops (run_vm ops) (run_sp ops).
-Proof.
-  exists redecl_witness. split; [reflexivity|].
-  vm_compute. intros (_ & _ & _ & _ & H & _). discriminate.
-Qed.
+Lemma vm_same_scope_redecl_restored :
+  redecl_free redecl_witness = false /\ run_vm redecl_witness = run_sp redecl_witness /\ nth 4 (run_vm redecl_witness) 9 = 0.
+Proof. vm_compute. repeat split; reflexivity. Qed.
 
 (* ------------------------------------------------------------------ the global map *)
 Definition RG (s : vm) (t : sp) : Prop := forall k i, ffind k (sglobal t) = Some i -> vw (glob s) k = Some i.
 
 Lemma step_RG s t o :
-  R s t -> RG s t -> redecl_free_step t o = true -> glob_flag_step t o = true ->
+  R s t -> RG s t -> glob_flag_step t o = true ->
   RG (fst (vm_step s o)) (fst (sp_step t o)) /\ out_ok_glob o (snd (vm_step s o)) (snd (sp_step t o)).
 Proof.
-  intros HR HG Hwf Hgf. destruct HR as [Hn Hv Hpf Hpg Hl].
+  intros HR HG Hgf. destruct HR as [Hn Hv Hpf Hpg Hl].
   destruct s as [c gl lg nx]; destruct t as [fs g sn]; unfold RG in *;
     cbn [next cur glob log sframes sglobal snext] in *.
   destruct o as [| |n gf|n gf ctx|n gf|].
@@ -332,26 +327,25 @@ Proof.
 Qed.
 
 Lemma run_RG ops : forall s t,
-  R s t -> RG s t -> all_steps redecl_free_step t ops = true -> all_steps glob_flag_step t ops = true ->
+  R s t -> RG s t -> all_steps glob_flag_step t ops = true ->
   outs_ok out_ok_glob ops (snd (vm_run s ops)) (snd (sp_run t ops)).
 Proof.
-  induction ops as [|o r IH]; intros s t HR HG Hwf Hgf; cbn [vm_run sp_run all_steps] in *.
+  induction ops as [|o r IH]; intros s t HR HG Hgf; cbn [vm_run sp_run all_steps] in *.
   - cbn. auto.
-  - apply andb_true_iff in Hwf. destruct Hwf as [H1 H2].
-    apply andb_true_iff in Hgf. destruct Hgf as [G1 G2].
-    destruct (step_R s t o HR H1) as [HR' _].
-    destruct (step_RG s t o HR HG H1 G1) as [HG' Ho].
+  - apply andb_true_iff in Hgf. destruct Hgf as [G1 G2].
+    destruct (step_R s t o HR) as [HR' _].
+    destruct (step_RG s t o HR HG G1) as [HG' Ho].
     destruct (vm_step s o) as [s1 a] eqn:Ev. destruct (sp_step t o) as [t1 b] eqn:Es.
     cbn [fst snd] in *.
-    specialize (IH s1 t1 HR' HG' H2 G2).
+    specialize (IH s1 t1 HR' HG' G2).
     destruct (vm_run s1 r) as [s2 l]. destruct (sp_run t1 r) as [t2 l'].
     cbn [fst snd outs_ok] in *. tauto.
 Qed.
 
 Theorem vm_global_lookup ops :
-  redecl_free ops = true -> glob_flag_ok ops = true -> outs_ok out_ok_glob ops (run_vm ops) (run_sp ops).
+  glob_flag_ok ops = true -> outs_ok out_ok_glob ops (run_vm ops) (run_sp ops).
 Proof.
-  intros H1 H2. apply (run_RG ops vm0 sp0 R0); auto.
+  intros H2. apply (run_RG ops vm0 sp0 R0); auto.
   intros k i H; discriminate.
 Qed.
 
@@ -360,7 +354,7 @@ Qed.
 Definition glob_witness : list op := [Enter; Add [113] true; Leave; Find [113] true].
 
 Lemma vm_global_pollution_refuted :
-  exists ops, redecl_free ops = true /\ run_sp ops <> run_vm ops /\
+  exists ops, run_sp ops <> run_vm ops /\
               nth 3 (run_sp ops) 9 = 0 /\ nth 3 (run_vm ops) 9 = 1.
 Proof. exists glob_witness. vm_compute. repeat split; congruence. Qed.
 
@@ -480,13 +474,12 @@ Lemma vm_view_vw s k : vm_view s k = oid (vw (cur s) k).
 Proof. unfold vm_view, vw. destruct (afind k (cur s)); reflexivity. Qed.
 
 Theorem vm_leave_restores pre body :
-  redecl_free (pre ++ Enter :: body ++ [Leave]) = true -> bal 0 body = true ->
+  bal 0 body = true ->
   forall k, vm_view (fst (vm_run vm0 (pre ++ Enter :: body ++ [Leave]))) k = vm_view (fst (vm_run vm0 pre)) k.
 Proof.
-  intros Hwf Hb k. unfold redecl_free in Hwf.
-  pose proof (run_R _ vm0 sp0 R0 Hwf) as [HR3 _].
-  rewrite all_steps_app in Hwf. apply andb_true_iff in Hwf. destruct Hwf as [Hwf1 _].
-  pose proof (run_R _ vm0 sp0 R0 Hwf1) as [HR1 _].
+  intros Hb k.
+  pose proof (run_R (pre ++ Enter :: body ++ [Leave]) vm0 sp0 R0) as [HR3 _].
+  pose proof (run_R pre vm0 sp0 R0) as [HR1 _].
   rewrite !vm_view_vw. rewrite (R_view _ _ HR3), (R_view _ _ HR1). f_equal.
   rewrite sp_run_app. destruct (sp_run sp0 pre) as [t1 l1]. cbn [fst].
   change (Enter :: body ++ [Leave]) with ([Enter] ++ body ++ [Leave]).
@@ -533,11 +526,12 @@ Section Rename.
   Lemma aset_ren k v m : aset (rho k) v (ren_amap m) = ren_amap (aset k v m).
   Proof. unfold aset. rewrite aerase_ren. reflexivity. Qed.
 
-  Lemma restore_ren l : forall m, fold_left restore (ren_amap l) (ren_amap m) = ren_amap (fold_left restore l m).
+  Lemma restore_ren l : forall m, fold_right (fun e m => restore m e) (ren_amap m) (ren_amap l) =
+                                  ren_amap (fold_right (fun e m => restore m e) m l).
   Proof.
-    induction l as [|[k0 v0] l IH]; intros m; cbn [ren_amap map fold_left fst snd]; [reflexivity|].
-    fold (ren_amap l). unfold restore at 2 4. cbn [fst snd].
-    destruct (vid v0 =? 0); [rewrite aerase_ren | rewrite aset_ren]; apply IH.
+    induction l as [|[k0 v0] l IH]; intros m; cbn [ren_amap map fold_right fst snd]; [reflexivity|].
+    fold (ren_amap l). rewrite IH. unfold restore. cbn [fst snd].
+    destruct (vid v0 =? 0); [apply aerase_ren | apply aset_ren].
   Qed.
 
   Lemma ren_amap_snoc l k v : ren_amap (l ++ [(k, v)]) = ren_amap l ++ [(rho k, v)].
